@@ -495,4 +495,114 @@ BinTreesL(S, L) ==
   IF Cardinality(S) = 1 THEN {LeafN(R(w), Min(S)) : w \in L}
   ELSE UNION {{Node(R(w), -1, <<a, b>>) : w \in L, a \in BinTreesL(BlocksInOrder(P)[1], L), b \in BinTreesL(BlocksInOrder(P)[2], L)}
               : P \in PartitionsK(S, 2)}
+
+(* ------------------------------------------------------------------ nodes: sub-trees, declarative distances
+   distance_to / lowest_common_ancestor are methods of every node, not only of leaves.  Rows of the
+   parent-pointer table PP(t) (pre-order) name the nodes. *)
+RECURSIVE Subtrees(_)
+Subtrees(t) == <<t>> \o FlattenSeq([k \in DOMAIN t.kids |-> Subtrees(t.kids[k])])       \* pre-order, as PP(t)
+Ancestors(tab, v) == ToSet(PathToRoot(tab, v))                                            \* v included
+DepthCount(tab, v) == Len(PathToRoot(tab, v))
+\* the lowest common ancestor, declaratively: the deepest node that is an ancestor of both
+LcaDecl(tab, u, v) ==
+  LET common == Ancestors(tab, u) \cap Ancestors(tab, v) IN
+  CHOOSE a \in common : \A b \in common : DepthCount(tab, b) <= DepthCount(tab, a)
+\* the explicit path sum between two nodes: the branches on the path, each once
+PathEdges(tab, u, v) == (Ancestors(tab, u) \cup Ancestors(tab, v)) \ (Ancestors(tab, u) \cap Ancestors(tab, v))
+NodeDistDecl(tab, u, v) == LET es == SetToSeq(PathEdges(tab, u, v)) IN RSum([q \in DOMAIN es |-> tab[es[q]].len])
+
+(* ------------------------------------------------------------------ the Tree object and its callers
+   "Objects of this class are immutable": a Tree owns its root and one list (index -> leaf node,
+   `own`).  The public read-only calls (TreeCalls) answer from them and leave them as they are; some
+   calls hand a container to the caller (Tree.leaves and TreeNode.get_leaves(): a list of leaf nodes,
+   TreeNode.get_indices(): an array, Tree.as_graph(): a graph), which the caller may then edit in place
+   (ScrOps, "scribbling").  The design: every handed-out container is a new object.  That is modelled
+   with cells: cell 1 is the tree's own list (as leaf indices: own[i + 1] = i), a call that hands out
+   a container appends a cell, a scribble edits the cell the caller holds (the one handed out last).
+   What the tree answers afterwards (ProbeOf) is a function of the tree value and cell 1 only. *)
+TreeCalls == {"len", "leaves", "walk", "dist", "topo", "lca", "nodeDist", "rootPath", "getLeaves", "getIndices",
+              "leafCount", "newick", "newickNoDist", "newickLabels", "str", "repr", "iter", "copy", "nodeCopy",
+              "eqHash", "graph", "binary"}
+ScrOps == {"rev", "pop", "fill", "clear", "sort"}
+OwnList(t) == [q \in 1..Len(LeafList(t)) |-> q - 1]
+\* <<kind of container, content as leaf indices>> that the call hands out; <<>> = nothing the caller could edit
+Handout(t, op) ==
+  CASE op = "leaves"     -> <<"list", OwnList(t)>>          \* Tree.leaves
+    [] op = "getLeaves"  -> <<"list", LeafList(t)>>         \* root.get_leaves()
+    [] op = "getIndices" -> <<"array", LeafList(t)>>        \* root.get_indices()
+    [] op = "graph"      -> <<"graph", OwnList(t)>>         \* as_graph(): its leaf nodes
+    [] OTHER             -> <<>>
+CanScr(kind, scr) ==
+  CASE kind = "list"  -> TRUE
+    [] kind = "array" -> scr \in {"rev", "fill", "sort"}     \* an array keeps its size
+    [] kind = "graph" -> scr \in {"pop", "clear"}            \* remove_node / clear
+    [] OTHER -> FALSE
+ScrEdit(scr, c) ==
+  CASE scr = "rev"   -> Reverse(c)
+    [] scr = "pop"   -> (IF c = <<>> THEN c ELSE SubSeq(c, 1, Len(c) - 1))
+    [] scr = "fill"  -> [q \in DOMAIN c |-> c[Len(c)]]
+    [] scr = "clear" -> <<>>
+    [] OTHER         -> SortSeq(c, LAMBDA a, b : a > b)       \* "sort": descending
+ObjInit(t) == [cells |-> <<OwnList(t)>>, kinds |-> <<"own">>, held |-> 0]
+ObjEnabled(o, op) == op \in TreeCalls \/ (op \in ScrOps /\ o.held # 0 /\ CanScr(o.kinds[o.held], op))
+ObjStep(t, o, op) ==
+  IF op \in ScrOps THEN [o EXCEPT !.cells[o.held] = ScrEdit(op, @)]
+  ELSE LET h == Handout(t, op) IN
+       IF h = <<>> THEN o
+       ELSE [cells |-> Append(o.cells, h[2]), kinds |-> Append(o.kinds, h[1]), held |-> Len(o.cells) + 1]
+\* a history is a sequence of calls and scribbles; <<ok, object>>: ok = every step was enabled
+ObjRun(t, ops) ==
+  FoldLeft(LAMBDA acc, op : IF acc[1] /\ ObjEnabled(acc[2], op) THEN <<TRUE, ObjStep(t, acc[2], op)>> ELSE <<FALSE, acc[2]>>,
+           <<TRUE, ObjInit(t)>>, ops)
+\* what the tree answers when asked through its own list: len(tree), [leaf.index for leaf in tree.leaves],
+\* root.get_indices(), get_distance(i, j) for all i, j
+ProbeWith(t, pd, own) ==
+  [n |-> Len(own), byIndex |-> own, order |-> LeafList(t),
+   dist |-> [i \in DOMAIN own |-> [j \in DOMAIN own |-> pd[<<own[i], own[j]>>]]]]
+ProbeOf(t, own) == Bind(Info(t).pd, LAMBDA pd : ProbeWith(t, pd, own))
+\* as_graph(): one edge per child, from the parent's nested tuple to the child's, with the child's distance
+GraphEdges(t) ==
+  LET subs == Subtrees(t) IN
+  UNION {{<<ZeroLens(subs[q]), ZeroLens(subs[q].kids[k]), subs[q].kids[k].len>> : k \in DOMAIN subs[q].kids} : q \in DOMAIN subs}
+
+(* ------------------------------------------------------------------ leaf labels in Newick
+   to_newick(labels) writes labels[i] for leaf i, from_newick(newick, labels) reads a label as "the
+   position of the label in the provided list"; without a list a leaf is written as its index and read
+   as an integer.  A label is a sequence of character tokens (the driver maps them to characters):
+     0..9    the digits          10..19  other characters without a meaning in Newick (letters _ - . +)
+     20..29  characters a Newick reader may treat specially (blank, tab, quotes, square brackets)
+     30..34  the syntax characters , : ; ( ) -- refused by the writer, outside the domain            *)
+DigitToks == 0..9
+PlainToks == 10..19
+QuoteToks == 20..29
+BlankToks == {20, 21}                                        \* blank, tab
+Dom_Label(lab) == Len(lab) >= 1 /\ \A q \in DOMAIN lab : lab[q] \in DigitToks \cup PlainToks \cup QuoteToks
+Dom_Labels(labels, n) ==
+  /\ Len(labels) >= n
+  /\ \A q \in DOMAIN labels : Dom_Label(labels[q])
+  /\ \A p, q \in DOMAIN labels : p # q => labels[p] # labels[q]
+RECURSIVE Digits(_)
+Digits(i) == IF i < 10 THEN <<i>> ELSE Append(Digits(i \div 10), i % 10)
+NumeralValue(lab) == FoldLeft(LAMBDA acc, d : 10 * acc + d, 0, lab)
+IsNumeral(lab) == Len(lab) >= 1 /\ \A q \in DOMAIN lab : lab[q] \in DigitToks
+\* labels = <<>> stands for "no list given"
+LeafText(i, labels) == IF labels = <<>> THEN Digits(i) ELSE labels[i + 1]
+LeafIndex(text, labels) ==
+  IF labels = <<>> THEN NumeralValue(text) ELSE (CHOOSE q \in DOMAIN labels : labels[q] = text) - 1
+HasBlank(labels) == \E q \in DOMAIN labels : \E x \in DOMAIN labels[q] : labels[q][x] \in BlankToks
+
+\* the label lists the specification generates for n leaves, from a pool of numerals and a pool of texts:
+\*   every one-to-one choice of numerals (the indices in place, permuted, 1-based, larger than n, zero-padded),
+\*   one text among numerals in place / reversed (every text at every position),
+\*   texts only (every rotation of the pool)
+NumeralPool(n) == {Digits(i) : i \in 0..n} \cup {<<1, 0>>, <<9, 6, 0, 6>>, <<0, 0>>, <<0, 1>>}
+TextPool == << <<10>>, <<1, 10>>, <<10, 1>>, <<12, 1>>, <<13, 1>>, <<14, 5>>, <<1, 11, 3>>, <<1, 12, 0>>,   \* a 1a a1 _1 -1 .5 1e3 1_0
+               <<10, 20, 11>>, <<1, 20, 2>>, <<10, 21, 10>>,                                               \* "a e", "1 2", a<tab>a
+               <<22, 10, 22>>, <<23, 10, 23>>, <<24, 1, 25>> >>                                            \* 'a' "a" [1]
+InjectiveSeqs(n, S) == {s \in [1..n -> S] : \A p, q \in 1..n : p # q => s[p] # s[q]}
+LabelLists(n) ==
+  InjectiveSeqs(n, NumeralPool(n))
+  \cup {[q \in 1..n |-> IF q = p THEN TextPool[x] ELSE Digits(IF rev THEN n - q ELSE q - 1)]
+          : p \in 1..n, x \in DOMAIN TextPool, rev \in BOOLEAN}
+  \cup {[q \in 1..n |-> TextPool[((q + s) % Len(TextPool)) + 1]] : s \in DOMAIN TextPool}
 =============================================================================
